@@ -69,7 +69,18 @@ fn main() {
                 {
                     continue;
                 }
-                ops::replay(&fields[..cut], &mut out);
+                // a malformed line (the local search mutates fields blindly) is skipped
+                let mut buf: Vec<u8> = Vec::new();
+                let ok = std::panic::catch_unwind(std::panic::AssertUnwindSafe(|| {
+                    ops::replay(&fields[..cut], &mut buf);
+                }))
+                .is_ok();
+                end_case();
+                if ok {
+                    out.write_all(&buf).unwrap();
+                } else {
+                    writeln!(out, "# skipped malformed case").unwrap();
+                }
             }
         }
         m if m.starts_with("exh-") => {
